@@ -11,6 +11,7 @@
 From Coq Require Import List ZArith NArith Bool.
 From Tele Require Import Gen.Consts Gen.GoFns Model.CounterConc Proofs.CounterWord Proofs.CounterInv Proofs.CounterThms Proofs.GoFnsCounter.
 From Tele Require Import Model.Register Proofs.RegisterFacts Proofs.CounterFault Proofs.CounterProgress Proofs.CounterMono.
+From Tele Require Import Model.CounterMulti Proofs.CounterMultiFacts.
 Import ListNotations.
 Open Scope Z_scope.
 
@@ -279,3 +280,116 @@ Example C03_example_open_of_full_file :
   all_done (snd st) = true /\ persisted (fst st) = 7 /\ w_extra (s_word (fst st)) = 0 /\
   s_cur (fst st) = Some 1%nat /\ s_ptr (fst st) = Some 1%nat /\ s_closed (fst st) = [0%nat] /\ s_full (fst st) = false.
 Proof. vm_compute. repeat split; reflexivity. Qed.
+
+(* ---- SEVERAL counters of one file object (Model/CounterMulti) ----
+   N counters; threads `adderM nc k n` (Counter.Add(n) on counter k INCLUDING
+   file.register: the claim of c.next, the CAS on the list head, and the
+   registrar's invalidate+refresh of fix f518e0b) and `changerM nc tg` (rotate1:
+   store of a new mapping, then file.invalidateCounters over EVERY counter of
+   the list it loaded - all invalidates, then all refreshes - then the close);
+   a lookup that finds the file full extends it inline and runs the same walk
+   nested.  One atomic operation of the real code per step; the per-counter
+   work of a step IS `step_thread` of Model/CounterConc on that counter's view
+   (`proj k`), and `tsproj k` lists, for every multi thread, the (three)
+   CounterConc threads it is in counter k's eyes.
+
+   Hypotheses that recur: `mgood` (initial state: fresh threads, every
+   counter's view a good single-counter initial state), `reg_init` (a counter
+   is on the list, or untouched), and the two flags of the FINAL state:
+   `ms_bad = false` (the run stayed inside the modelled envelope: no thread's
+   lookups extended the file twice, and no Add extended the file on a counter
+   that another goroutine was still registering) and `ms_chk = false` (the
+   run-time self checks of the multi-level control never failed; the lock-step
+   suite reports a set flag as a DIFF).  Both flags are monotone. *)
+
+(* For EVERY counter k, every step of the multi system is a stutter, ONE step
+   of the single-counter system, or one of two transitions of a changer thread
+   that the single-counter system does not have: the registrar takes on its
+   invalidate+refresh (CIdle -> IvLoad), or a changer drops its
+   invalidate+refresh of a counter that is NOT on the list it loaded
+   (IvLoad -> close), which is allowed only then. *)
+Theorem C03_multi_step_projects : forall k st i, (k < length (ms_ctrs (fst st)))%nat ->
+  ms_chk (fst (mstep st i)) = false -> ms_bad (fst (mstep st i)) = false ->
+  xstep (memn k (ms_list (fst st))) (sproj k st) (sproj k (mstep st i)).
+Proof. exact mstep_projects. Qed.
+Print Assumptions C03_multi_step_projects.
+
+(* ... hence the single-counter invariant holds of every counter's view at every
+   instant of every multi schedule - also while a counter is claimed but not yet
+   linked and a walk misses it: the claimer's pending redo answers for it
+   (the race repaired by f518e0b; without the redo the skip has no justification). *)
+Theorem C03_multi_invariant : forall ms0 ts0 sched k, mgood ms0 ts0 -> reg_init ms0 ->
+  ms_chk (fst (mrun sched (ms0, ts0))) = false -> ms_bad (fst (mrun sched (ms0, ts0))) = false ->
+  (k < length (ms_ctrs ms0))%nat ->
+  Inv (total_k k ms0 ts0) (sproj k (mrun sched (ms0, ts0))) /\
+  Forall (fun t => done_ok t = true) (snd (mrun sched (ms0, ts0))).
+Proof. exact multi_inv. Qed.
+Print Assumptions C03_multi_invariant.
+
+(* every counter, at every instant: persisted + pending <= increments begun on it *)
+Theorem C03_multi_upper_bound : forall ms0 ts0 sched k, mgood ms0 ts0 -> reg_init ms0 ->
+  let '(ms, ts) := mrun sched (ms0, ts0) in
+  ms_chk ms = false -> ms_bad ms = false -> (k < length (ms_ctrs ms0))%nat ->
+  persisted (proj k ms) + w_extra (c_word (getc ms k))
+  <= persisted (proj k ms0) + w_extra (c_word (getc ms0 k)) + (sumf unbegun (tsproj k ts0) - sumf unbegun (tsproj k ts)).
+Proof. exact multi_upper_bound. Qed.
+Print Assumptions C03_multi_upper_bound.
+
+(* every counter, once all calls have returned and nothing saturated:
+   persisted + pending = all increments on it, no reader or lock left *)
+Theorem C03_multi_exact_at_quiescence : forall ms0 ts0 sched k, mgood ms0 ts0 -> reg_init ms0 ->
+  let '(ms, ts) := mrun sched (ms0, ts0) in
+  ms_chk ms = false -> ms_bad ms = false -> (k < length (ms_ctrs ms0))%nat ->
+  m_all_done ts = true -> c_sat (getc ms k) = false ->
+  persisted (proj k ms) + w_extra (c_word (getc ms k))
+  = persisted (proj k ms0) + w_extra (c_word (getc ms0 k)) + sumf unbegun (tsproj k ts0) /\
+  w_readers (c_word (getc ms k)) = 0.
+Proof. exact multi_exact_at_quiescence. Qed.
+Print Assumptions C03_multi_exact_at_quiescence.
+
+(* no call on any counter dereferences a nil counter pointer *)
+Theorem C03_multi_no_nil_deref : forall ms0 ts0 sched k, mgood ms0 ts0 -> reg_init ms0 ->
+  let '(ms, ts) := mrun sched (ms0, ts0) in
+  ms_chk ms = false -> ms_bad ms = false -> (k < length (ms_ctrs ms0))%nat ->
+  Forall (fun u => crashed u = false) (tsproj k ts).
+Proof. exact multi_no_nil_deref. Qed.
+Print Assumptions C03_multi_no_nil_deref.
+
+(* Non-vacuity, the race of f518e0b: counter 0 registered with 2 pending, counter 1
+   fresh; goroutine 0 (Add 3 on counter 1) claims c.next and stops before linking;
+   goroutine 1 (Add 2 on counter 1) finds the counter claimed and adds: it looks the
+   pointer up with no file mapped; the opener (goroutine 2) runs to its end - its
+   walk misses counter 1; goroutine 0 links, redoes invalidate+refresh, adds.
+   Everything is persisted, both flags are clear. *)
+Example C03_multi_example_registration_race :
+  let st := mrun ([0;0;0;0] ++ repeat 1 12 ++ repeat 2 30 ++ repeat 0 40)%nat
+      (minit [HAVE + 2 * XUNIT; 0] [0%nat], [adderM 2 1 3; adderM 2 1 2; changerM 2 NewFile]) in
+  m_all_done (snd st) = true /\ mflags (fst st) = (false, false) /\
+  map (fun c => fold_right Z.add 0 (c_cells c)) (ms_ctrs (fst st)) = [2; 5] /\
+  map (fun c => w_extra (c_word c)) (ms_ctrs (fst st)) = [0; 0].
+Proof. vm_compute. repeat split; reflexivity. Qed.
+
+(* REFUTED for several goroutines registering one counter (a defect of the
+   current tree, found by this model and confirmed on the real code:
+   VH_REGWINDOW=1 of harness vh_conc): "no call ENTERS its reader section
+   through a closed mapping" (C03_no_entry_through_closed_mapping, single
+   counter, registered) does not extend to the window between register's claim
+   of c.next and the link.  File open; goroutine 0 claims the fresh counter and
+   stops before the link; goroutine 1's Add finds the counter claimed and gets
+   a pointer into mapping 0; a rotation (goroutine 2) stores mapping 1, its walk
+   misses the counter, it closes mapping 0; goroutine 3's Add(4) then goes
+   through the closed mapping 0 (2 accesses: SIGSEGV in production; here the 4
+   lands in the superseded file) - until goroutine 0 links and redoes the
+   invalidate.  Both flags clear: the run is inside the envelope of the multi
+   theorems, which do not speak about closed mappings. *)
+Definition regwin_init : mstate :=
+  (mkMS [mkC 0 None [0] 0 false None] (Some 0%nat) [0%nat] [] false false 1 [] [false] false false,
+   [adderM 1 0 1; adderM 1 0 2; changerM 1 NewFile; adderM 1 0 4]).
+Definition regwin_sched : list nat := ([0;0;0;0] ++ repeat 1 20 ++ repeat 2 30 ++ repeat 3 20 ++ repeat 0 40)%nat.
+Theorem C03_multi_entry_through_closed_mapping_refuted :
+  let st := mrun regwin_sched regwin_init in
+  m_all_done (snd st) = true /\ mflags (fst st) = (false, false) /\
+  ms_closed (fst st) = [0%nat] /\
+  map (fun c => (c_cells c, c_faults c)) (ms_ctrs (fst st)) = [([6; 1], 2)].
+Proof. vm_compute. repeat split; reflexivity. Qed.
+Print Assumptions C03_multi_entry_through_closed_mapping_refuted.
